@@ -1,5 +1,6 @@
 """C01 — Streett(1) winning region (nested fixpoint)."""
 from ovc import harness, shapes
+from contracts import gr1_monitor as gm
 from contracts import gr1_streett as cs
 
 LEVEL = 'proof'
@@ -78,6 +79,9 @@ def families(tier, seed):
                     out.append(dict(
                         name=f'real manager sweep [{be or "default"}] {fname} holds={nh} goals={ng} {shapes.mode_name(moore, plus_one)} {sh.name}',
                         run=harness.sweep(cs.FUNCTIONS[fname], sh, params, 'automaton', seed, ns, be), label='bounded'))
+    for be in ('cudd', 'autoref'):
+        out.append(dict(name=f'same automaton object solved again after its game was replaced [{be}]',
+                        run=gm.resolve_same_automaton('streett', seed, 8 if tier == 'quick' else 120, be), label='bounded'))
     return out
 
 
